@@ -11,3 +11,21 @@ pub(crate) fn clap_command() -> clap::Command {
 }
 
 pub use dispatch::run;
+
+#[cfg(agentpack_verif)]
+pub(crate) fn verif_cmp_failure_rate(
+    a_fail: u64,
+    a_total: u64,
+    b_fail: u64,
+    b_total: u64,
+) -> std::cmp::Ordering {
+    commands::score::verif_cmp_failure_rate(a_fail, a_total, b_fail, b_total)
+}
+
+#[cfg(agentpack_verif)]
+pub(crate) fn verif_mutating_command_ids() -> Vec<String> {
+    util::MUTATING_COMMAND_IDS
+        .iter()
+        .map(|s| s.to_string())
+        .collect()
+}
